@@ -248,7 +248,9 @@ def finish(root, prop, tier, seed, pres, bres, t0, write_expected=False, rres=No
         coverage["explanation"] = "contract-based deductive verification of the real source (see DESIGN.md)"
     ev = {"property_id": prop, "tier": tier, "seed": seed, "level": level, "coverage": coverage,
           "assumptions": cfg.get("assumptions", []) + [f"assumed contract (not verified here): {a}" for a in assumed]
-          + sorted({n for r in results for n in r.get("notes", [])}),
+          + sorted({n for r in results for n in r.get("notes", [])})
+          + ["the random families of the bounded stand-in run with seed 0 whatever VERIF_SEED is (requested: "
+             + str(os.environ.get("VERIF_SEED", "unset")) + "): deterministic exploration, see DESIGN.md section 4"],
           "wall_s": round(time.time() - t0, 2), "violations": len(violations)}
     with open(os.path.join(root, "evidence", f"{prop}.json"), "w") as fh:
         json.dump(ev, fh, indent=1, default=str)
